@@ -46,6 +46,8 @@ def init_worker():
 
     WarmM.validate(pd.DataFrame({"a": [1]}))
     _W["traced"] = _traced_codes()
+    _W["discovered"] = _discover_global_writers()
+    _W["traced"].update(_W["discovered"]["codes"])
 
 
 def _traced_codes():
@@ -62,6 +64,105 @@ def _traced_codes():
     codes[cfg.config_context.__wrapped__.__code__] = (G, "r")   # its writes go through the instrumented config object
     codes[mdl.DataFrameModel.to_schema.__func__.__code__] = (("global", "pandera.api.dataframe.model.MODEL_CACHE"), "w")
     return codes
+
+
+def _global_snapshot():
+    """(id, len) of every module-level and class-level value of the loaded pandera modules"""
+    import sys
+    import types
+
+    def _len(v):
+        try:
+            return len(v)
+        except Exception:  # noqa
+            return None
+
+    snap = {}
+    for mn, m in list(sys.modules.items()):
+        if not mn.startswith("pandera") or m is None:
+            continue
+        for name, val in list(vars(m).items()):
+            if name.startswith("__") or isinstance(val, (types.ModuleType, types.FunctionType)):
+                continue
+            if isinstance(val, type):
+                if (val.__module__ or "") == mn:
+                    for a, v in list(vars(val).items()):
+                        if a.startswith("__") or isinstance(v, (types.FunctionType, classmethod, staticmethod, property)):
+                            continue
+                        snap[(val.__module__ + "." + val.__qualname__, a)] = (id(v), _len(v))
+                continue
+            snap[(mn, name)] = (id(val), _len(val))
+    return snap
+
+
+def _discover_global_writers():
+    """Own the nondeterminism we do not know about: after warm-up, run representative validations (alternating pandas / polars /
+    model calls) and diff a snapshot of all module- and class-level state of pandera around each call.  Every location that a
+    validation rebinds or resizes is shared mutable state; the functions whose code names it become traced (every line a scheduling
+    point), so that a newly introduced cache / memo / scratch buffer at module or class level is preemptible like the known globals."""
+    import sys
+    import types
+
+    import pandas as pd
+    import polars as pl
+    import pandera as pa
+    import pandera.polars as pp
+
+    ps = pa.DataFrameSchema({"a": pa.Column(int, pa.Check.ge(0), coerce=True)})
+    pls = pp.DataFrameSchema({"a": pp.Column(int, pa.Check.ge(0))})
+
+    class DiscM(pa.DataFrameModel):
+        a: int = pa.Field(ge=0)
+
+    def bad():
+        try:
+            ps.validate(pd.DataFrame({"a": [-1.0]}), lazy=True)
+        except pa.errors.SchemaErrors:
+            pass
+
+    calls = [lambda: ps.validate(pd.DataFrame({"a": [1.0]})), lambda: pls.validate(pl.DataFrame({"a": [1]})), lambda: ps.validate(pd.DataFrame({"a": [1]})),
+             lambda: pls.validate(pl.DataFrame({"a": [1]}).lazy()).collect(), bad, lambda: DiscM.validate(pd.DataFrame({"a": [1]})),
+             lambda: pls.validate(pl.DataFrame({"a": [2]})), lambda: DiscM.validate(pd.DataFrame({"a": [2]}))]
+    for c in calls:
+        c()
+    changed = set()
+    for c in calls:
+        s0 = _global_snapshot()
+        c()
+        s1 = _global_snapshot()
+        changed |= {k for k in s1 if s0.get(k) != s1[k]}
+    known = {("pandera.config", "_CONTEXT_CONFIG"), ("pandera.api.dataframe.model", "MODEL_CACHE")}
+    new = sorted(changed - known)
+    codes = {}
+    if new:
+        names = {n for _o, n in new}
+        seen = set()
+
+        def scan(co, owner):
+            if co in seen:
+                return
+            seen.add(co)
+            hit = names & set(co.co_names)
+            if hit:
+                nm = sorted(hit)[0]
+                loc = next(o for o, n in new if n == nm)
+                codes[co] = (("global", f"{loc}.{nm}"), "w")
+            for k in co.co_consts:
+                if isinstance(k, types.CodeType):
+                    scan(k, owner)
+
+        for mn, m in list(sys.modules.items()):
+            if not mn.startswith("pandera") or m is None:
+                continue
+            for val in list(vars(m).values()):
+                if isinstance(val, types.FunctionType) and (val.__module__ or "").startswith("pandera"):
+                    scan(val.__code__, mn)
+                elif isinstance(val, type) and (val.__module__ or "") == mn:
+                    for v in list(vars(val).values()):
+                        f = getattr(v, "__func__", v)
+                        if isinstance(f, types.FunctionType):
+                            scan(f.__code__, mn)
+    return {"locations": [f"{o}.{n}" for o, n in new], "codes": codes, "functions": sorted({c.co_qualname for c in codes})}
 
 
 def _cfg_label(obj, tid):
@@ -244,6 +345,13 @@ def _h_build(name):
         d1 = pl.DataFrame({"a": ["1", "2"], "b": ["3", "4"]})
         d2 = pl.DataFrame({"a": [1.0, 2.0], "b": [3.0, 4.0]})
         return [lambda: s.validate(d1), lambda: s.validate(d2)], {"s": s}
+    if name == "H12_pandas_vs_polars_unrelated":
+        # two unrelated schemas, one per backend, both with checks: whatever the two calls share is process-global
+        spd = pa.DataFrameSchema({"a": pa.Column(int, [pa.Check.ge(0), pa.Check.le(10)])})
+        spl = pp.DataFrameSchema({"a": pp.Column(int, [pa.Check.ge(0), pa.Check.le(10)])})
+        d1 = pd.DataFrame({"a": [1, 20]})
+        d2 = pl.DataFrame({"a": [1, 2]})
+        return [lambda: spd.validate(d1, lazy=True), lambda: spl.validate(d2)], {"spd": spd, "spl": spl}
     raise AssertionError(name)
 
 
@@ -251,7 +359,7 @@ HARNESSES = ["H0_pandas_distinct_schemas", "H1_pandas_shared_coercing_schema", "
              "H2b_pandas_shared_noncoercing_eager", "H3_polars_dataframe_vs_lazyframe", "H3b_polars_two_dataframes",
              "H4_polars_vs_pandas_in_user_context", "H5_two_schemas_sharing_one_column", "H6_model_cold_cache",
              "H7_three_threads", "H8_shared_regex_schema_one_failing", "H9_frame_dtype_override_shared",
-             "H10_polars_shared_coercing_schema", "H11_polars_frame_dtype_shared"]
+             "H10_polars_shared_coercing_schema", "H11_polars_frame_dtype_shared", "H12_pandas_vs_polars_unrelated"]
 
 
 def _prepare(name):
@@ -415,4 +523,5 @@ def run_case(case):
             "nontrivial": r["executions"] > 1, "nontrivial_n": r["executions"],
             "outcome": f"{case['harness']}:outcomes={r['distinct_outcomes']}",
             "counters": {"executions": r["executions"], "W_locations": r["W"], "restarts": r["restarts"],
+                         "discovered_global_locations": len(_W.get("discovered", {}).get("locations", [])),
                          "distinct_outcomes": r["distinct_outcomes"], "capped_shards": 1 if r["capped"] else 0}}
